@@ -360,7 +360,76 @@ class PopPredSubject(Subject):
         return res
 
 
-SUBJECTS = {c.kind: c for c in (
+class ControllerSubject(Subject):
+    """ProblemModellingController.fix_parameters (individual and population
+    case); evaluated through the log-likelihood of get_log_posterior()."""
+    kind = 'controller'
+    evals = ('ll', 's1')
+
+    def build(self, reduced):
+        import chi
+        import pandas as pd
+        r = self.recipe
+        m = zoo.build_mech(dict(r['mech']))
+        errs = [zoo.build_error(e) for e in r['errors']]
+        ctrl = chi.ProblemModellingController(m, errs)
+        outs = ctrl._mechanistic_model.outputs()
+        rows = []
+        for i in range(r['n_ids']):
+            for j, o in enumerate(outs):
+                ts = r['times'][(i + j) % len(r['times'])]
+                vs = r['values'][(i + j) % len(r['values'])]
+                for t_, v in zip(ts, vs):
+                    rows.append({'ID': 'p%d' % i, 'Time': t_,
+                                 'Observable': o, 'Value': v})
+        df = pd.DataFrame(rows)
+        if r.get('pop'):
+            ctrl.set_population_model(zoo.build_pop(r['pop']))
+        ctrl.set_data(df, dose_key=None, dose_duration_key=None)
+        return ctrl
+
+    def full_names(self, twin):
+        return twin.get_parameter_names()
+
+    def cur_names(self):
+        return self.obj.get_parameter_names()
+
+    def n_parameters(self):
+        return self.obj.get_n_parameters()
+
+    def n_fixed(self):
+        return None
+
+    def _ll(self, ctrl):
+        ctrl.set_log_prior(zoo.build_prior(
+            {'n': ctrl.get_n_parameters(), 'kind': 'lognormal'}))
+        post = ctrl.get_log_posterior()
+        return post.get_log_likelihood()
+
+    def evaluate(self, which, target, ref, op, full):
+        x = _full(ref, op['x']) if full else _free(ref, op['x'])
+        ll = self._ll(target)
+        if self.recipe.get('pop'):
+            n_bottom = ll.n_parameters() - len(x)
+            bottom = np.array([op['bottom'][i % len(op['bottom'])]
+                               for i in range(n_bottom)])
+            x = np.concatenate([bottom, x])
+        if which == 'll':
+            return ll(x)
+        return ll.evaluateS1(x)
+
+    def restrict(self, which, res, ref, op):
+        if which != 's1' or is_exc(res):
+            return res
+        score, sens = res
+        sens = np.asarray(sens)
+        n_top = len(self.names)
+        n_bottom = len(sens) - n_top if self.recipe.get('pop') else 0
+        free = [i for i in range(n_top) if i not in ref]
+        return score, np.hstack((sens[:n_bottom], sens[n_bottom:][free]))
+
+
+SUBJECTS = {c.kind: c for c in (ControllerSubject, 
     ErrorSubject, MechSubject, PopSubject, LogLikSubject, PredSubject,
     PopPredSubject)}
 
@@ -391,6 +460,8 @@ def do_eval(s, ref, op, world, step):
     which = op['kind']
     if which not in s.evals:
         return
+    if s.kind == 'controller' and len(ref) >= len(s.names):
+        return      # no free parameter: a posterior cannot be requested
     fault = op.get('fault')
     args_snap = snapshot({k: v for k, v in op.items()})
     world.begin_op(fault)
@@ -406,8 +477,10 @@ def do_eval(s, ref, op, world, step):
     if faulted:
         world.probe('eval_with_solver_fault')
         ok = True
-        if s.kind == 'loglik' and which == 'll':
+        if s.kind in ('loglik', 'controller') and which == 'll':
             ok = (not is_exc(a)) and a == -np.inf
+        elif s.kind == 'controller' and which == 's1':
+            ok = (not is_exc(a)) and not np.isfinite(a[0])
         elif s.kind == 'loglik' and which == 's1':
             ok = (not is_exc(a)) and a[0] == -np.inf and len(a[1]) == len(
                 _free(ref, op['x']))
@@ -624,7 +697,7 @@ def n_params_of(recipe):
 
 def generate(rng, index, tier):
     kinds = ['error', 'mech', 'pop', 'pop', 'loglik', 'loglik', 'pred',
-             'poppred']
+             'poppred', 'controller']
     kind = kinds[index % len(kinds)] if rng.random() < 0.7 \
         else rng.choice(kinds)
     n_ids = rng.randint(1, 4)
@@ -651,6 +724,18 @@ def generate(rng, index, tier):
                 obs.append(_vals(rng, len(ts), 0.1, 2.0))
             recipe['times'] = times
             recipe['obs'] = obs
+    if kind == 'controller':
+        grid = sorted(set(round(rng.uniform(0.2, 6), 1) for _ in range(4)))
+        recipe['n_ids'] = rng.randint(1, 3)
+        recipe['times'] = [sorted(rng.sample(grid, rng.randint(1, len(grid))))
+                           for _ in range(3)]
+        recipe['values'] = [_vals(rng, len(grid), 0.2, 2.0) for _ in range(3)]
+        if rng.random() < 0.6:
+            tmp = dict(recipe, kind='pred')
+            n0, _ = n_params_of(tmp)
+            from .c19 import _no_tg
+            recipe['pop'] = set_n_ids_recipe(_no_tg(gen_pop_recipe(
+                rng, n_dim_total=n0, allow_cov=False)), recipe['n_ids'])
     if kind == 'poppred':
         # population model over all predictive model parameters
         tmp = dict(recipe, kind='pred')
@@ -659,7 +744,8 @@ def generate(rng, index, tier):
             gen_pop_recipe(rng, n_dim_total=n), 1)
     n, subj = n_params_of(recipe)
     n_ops = rng.randint(2, 30 if tier == 'thorough' else 14)
-    faults_on = rng.random() < 0.5 and kind in ('mech', 'loglik', 'pred')
+    faults_on = rng.random() < 0.5 and kind in ('mech', 'loglik', 'pred',
+                                                 'controller')
     ops = []
     fresh = iter('q%d' % i for i in range(1000))
     evals = list(subj.evals)
@@ -685,6 +771,8 @@ def generate(rng, index, tier):
                 nm = rng.randint(1, 3)
                 op['model_sens'] = [_vals(rng, nm, -1, 1) for _ in range(nt)]
                 op['n_samples'] = rng.randint(1, 4)
+            if kind == 'controller':
+                op['bottom'] = _vals(rng, 11, 0.3, 1.5)
             if kind in ('mech', 'pred', 'poppred'):
                 op['times'] = sorted(set(
                     round(rng.uniform(0, 6), 1)
